@@ -28,7 +28,7 @@ Fixpoint moded_operand (fuel : nat) (e : expr) : bool :=
       | EArray l => forallb (moded_operand f) l
       | EHash l => forallb (fun kv => moded_operand f (fst kv) && moded_operand f (snd kv)) l
       | EIndex l i => moded_operand f l && moded_operand f i
-      | ECall _ args => forallb (moded_operand f) args
+      | ECall fn args => moded_operand f fn && forallb (moded_operand f) args
       | _ => true
       end
   end.
